@@ -26,13 +26,18 @@ theorem outQs_modConn (s : St) (id : Nat) (f : Conn → Conn)
   · simp [h]
   · exact h
 
+theorem removePeerConnection_conns (s : St) (cid : Nat) (r : Reason) :
+    (removePeerConnection s cid r).conns = s.conns := by
+  unfold removePeerConnection
+  cases hc : s.conn? cid with
+  | none => rfl
+  | some c =>
+    simp only []
+    repeat (first | rfl | split)
+
 @[simp] theorem outQs_removePeerConnection (s : St) (cid : Nat) (r : Reason) :
     outQs (removePeerConnection s cid r) = outQs s := by
-  unfold removePeerConnection
-  split
-  · rfl
-  · dsimp only
-    split <;> rfl
+  simp only [outQs, removePeerConnection_conns]
 
 @[simp] theorem outQs_closeConnectionSocket (s : St) (cid : Nat) (r : Reason) :
     outQs (closeConnectionSocket s cid r) = outQs s := by
